@@ -262,7 +262,7 @@ class _Ctx(object):
 
 
 DRESSES = ['subclass', 'enum_member', 'other_number', 'other_buffer',
-           'tuple']
+           'tuple', 'fraction', 'decimal']
 
 
 def dress(spec, v, how):
@@ -309,6 +309,20 @@ def dress(spec, v, how):
         if how == 'other_number' and isinstance(v, float) and \
                 v == int(v if abs(v) < 2 ** 60 and v == v else 0.5) and \
                 (v != 0 or str(v) == '0.0'):
+            return int(v)
+        return None
+    if n in ('Angle', 'FixedPoint', 'FixedPointInteger'):
+        # an angle / a coordinate is a real number: exact rationals and
+        # decimals (whose % keeps the dividend's sign) are numbers too
+        import decimal
+        import fractions
+        if isinstance(v, bool) or v != v or abs(v) > 1e15:
+            return None
+        if how == 'fraction':
+            return fractions.Fraction(v)
+        if how == 'decimal':
+            return decimal.Decimal(v)
+        if how == 'other_number' and v == int(v):
             return int(v)
         return None
     if n == 'Boolean':
